@@ -253,6 +253,8 @@ class Program:
                     tspec = {"b": "ok", "out": {}}
                     if phase == "before" and sy.get("before_fail") and j == 0:
                         tspec = {"b": "fail_terminal"}
+                    if list(sy.get("bad") or []) == [phase, j]:
+                        tspec = {"b": "fail_terminal"}
                     reg.register(nm, T(nm, f"{ref}<{phase}{j}>", 0, tspec))
         program = self
 
@@ -368,6 +370,7 @@ DEFAULT_PROFILE: dict[str, Any] = {
     "mutex_p": 0.0,
     "choice_p": 0.0,
     "reducers_p": 0.0,
+    "synth_fail_p": 0.0,      # a synthetic child stage whose task fails terminally
     "fwd_jump_p": 0.0,        # share of jumps that go forward (to a descendant) instead of back
     "once_p": 0.0,            # an ok-task that produces its outputs in the first loop iteration only
     "max_jumps": [None, None, 1, 3],
@@ -462,9 +465,16 @@ def gen_program(ch: Choices, profile: dict[str, Any] | None = None) -> Program:
         if fails and ch.flip("cof", p["cof_p"] * 3):
             s["ctx"]["continuePipelineOnFailure"] = True
         if ch.flip("synth", p["synth_p"]):
-            sy = {"before": ch.pick("nb", 3), "after": ch.pick("na", 2), "fail": ch.pick("nf", 2)}
+            sy = {"before": ch.pick("nb", 3), "after": ch.pick("na", 3), "fail": ch.pick("nf", 2)}
             if ch.flip("chain", 0.3):
                 sy["chain"] = 1
+            if p.get("synth_fail_p", 0.0) > 0 and ch.flip("sfail", p["synth_fail_p"]):
+                # one synthetic child whose task fails terminally (a failing before- / after- / on-failure stage next
+                # to healthy siblings)
+                phases = [ph for ph in ("before", "after", "fail") if sy.get(ph)]
+                if phases:
+                    ph = phases[ch.pick("sfail.phase", len(phases))]
+                    sy["bad"] = [ph, ch.pick("sfail.j", int(sy[ph]))]
             s["synth"] = sy
         if ch.flip("disabled", p["disabled_p"]):
             s["ctx"]["stageEnabled"] = False
